@@ -48,16 +48,33 @@ theorem C07_dev_lookahead :
     fieldLoc {} "{\n  b\n}".toList 4 1 = (3, 0) ∧ lineOf "{\n  b\n}".toList 4 = 2 ∧
     locOk "{\n  b\n}".toList 4 (fieldLoc {} "{\n  b\n}".toList 4 1) = false := by decide
 
-/-- sampling before the look-ahead (the repaired configuration) gives the token's line and its 1-based
-start column, for every text and every token without an inner newline -/
-theorem C07_loc_repaired (src : List Char) (off len : Nat) (hlen : off + len ≤ src.length)
-    (hnn : ∀ c ∈ (src.drop off).take len, c ≠ '\n') :
-    fieldLoc { sampleAfterLookahead := false } src off len = ((lineOf src off : Int), ((after (src.take off)).col : Int)) := by
-  have hsplit : src.take (off + len) = src.take off ++ (src.drop off).take len := by rw [List.take_add]
-  have htl : ((src.drop off).take len).length = len := by
-    simp [List.length_take, List.length_drop]; omega
-  simp only [fieldLoc, Bool.false_eq_true, if_false, hsplit, after_append, foldl_no_newline _ _ hnn, htl, lineOf]
+/-- sampling with the token's first byte on deck (the repaired configuration) gives the token's own line
+and (1-based start column) + 1 — the value the pinned tree reports when nothing goes wrong — for every
+text, every offset whose byte is not a newline, and every token length: what follows the token no
+longer matters. -/
+theorem C07_loc_repaired (src : List Char) (off len : Nat) (c : Char) (hc : src[off]? = some c) (hn : c ≠ '\n') :
+    fieldLoc { sampleAfterLookahead := false } src off len =
+      ((lineOf src off : Int), ((after (src.take off)).col : Int) + 1) := by
+  have hsplit : src.take (off + 1) = src.take off ++ [c] := by
+    rw [List.take_add_one]; simp [hc]
+  simp only [fieldLoc, Bool.false_eq_true, if_false, hsplit, after_append, List.foldl_cons, List.foldl_nil, advance, hn, lineOf]
   simp
+
+/-- the repaired configuration agrees with the pinned one wherever the pinned one was right (token and
+look-ahead on one line) -/
+theorem C07_loc_repaired_agrees (src : List Char) (off len : Nat) (c : Char) (hc : src[off]? = some c) (hn : c ≠ '\n')
+    (hlen : off + len + 1 ≤ src.length) (hnn : ∀ x ∈ (src.drop off).take (len + 1), x ≠ '\n') :
+    fieldLoc { sampleAfterLookahead := false } src off len = fieldLoc {} src off len := by
+  have h1 := C07_loc_repaired src off len c hc hn
+  have h2 := C07_loc_same_line src off len hlen hnn
+  simp only at h2
+  rw [h1]
+  exact Prod.ext h2.1.symm h2.2.symm
+
+/-- … and repairs the witness of D21 -/
+theorem C07_loc_repaired_witness :
+    fieldLoc { sampleAfterLookahead := false } "{\n  b\n}".toList 4 1 = (2, 4) ∧
+    locOk "{\n  b\n}".toList 4 (fieldLoc { sampleAfterLookahead := false } "{\n  b\n}".toList 4 1) = true := by decide
 
 end Ggql.Position
 
